@@ -83,57 +83,7 @@ def direct(run, chk):
         if bad > 5:
             break
     direct.alias_pairs = aliasing_oracle(chk, random.Random(chk.seed + 41), 40 if chk.tier == "quick" else 600)
-    direct.loops = loop_theorem_oracle(run, chk)
-
-
-def loop_theorem_oracle(run, chk):
-    """Lang/LoopProofs.v, loops_unroll_to_their_instances: for every program p with `expand env0 p = Some q` the model's
-    unroll() emits exactly q.  coqc evaluates the judgement `expand env0` on the parsed program of every loop-fragment case
-    and compares q with the statements the IMPLEMENTATION emitted: inside the judgement they must be equal."""
-    import os
-    import subprocess
-    import common
-    import langcorr
-    idx = [i for i, cs in enumerate(run.cases) if cs["family"] == "loop-fragment" and run.outcomes[i].get("prog_term")]
-    tally = {"inside-the-judgement-and-equal": 0, "outside-the-judgement": 0, "not-evaluated": 0}
-    d = common.run_dir()
-    shard, procs = 100, []
-    for k in range(0, len(idx), shard):
-        part = idx[k:k + shard]
-        f = os.path.join(d, "loops_%d.v" % (k // shard))
-        terms = []
-        for i in part:
-            o = run.outcomes[i]
-            outt = o.get("stmts_term") if o.get("unroll") == "ok" and o.get("stmts_term") else None
-            terms.append("(%s, %s)" % (o["prog_term"], "Some %s" % outt if outt else "None"))
-        with open(f, "w") as fh:
-            fh.write(langcorr.HEADER.replace("Unroll Corr", "Unroll FixProofs LoopProofs"))
-            fh.write("Definition code (c : list stmt * option (list stmt)) : nat :=\n"
-                     "  match expand env0 (fst c), snd c with\n"
-                     "  | None, _ => 0 | Some q, Some out => if list_eqb stmt_eqb q out then 1 else 2 | Some _, None => 3 end.\n")
-            fh.write("Eval vm_compute in (map code\n [%s]).\n" % ";\n  ".join(terms))
-        procs.append((part, subprocess.Popen(["timeout", "600", "coqc", "-Q", common.COQ, "Verif", f], stdout=subprocess.PIPE, stderr=subprocess.PIPE, text=True)))
-    bad = 0
-    for part, p in procs:
-        so, se = p.communicate()
-        vals = re.findall(r"\b(\d+)\b", so.split("= [", 1)[-1].split("]")[0]) if p.returncode == 0 and "= [" in so else []
-        if len(vals) != len(part):
-            tally["not-evaluated"] += len(part)
-            continue
-        for i, v in zip(part, vals):
-            v = int(v)
-            if v == 0:
-                tally["outside-the-judgement"] += 1
-            elif v == 1:
-                tally["inside-the-judgement-and-equal"] += 1
-            elif bad < 3:
-                bad += 1
-                o = run.outcomes[i]
-                chk.violation("loop_theorem_%d" % bad, {"kind": "program", "source": run.cases[i]["src"], "family": "loop-fragment",
-                              "what": "the program is inside the judgement of theorem loops_unroll_to_their_instances (every loop replaced by its body at "
-                                      "each value, in order) but the implementation " + ("emits different statements" if v == 2 else "rejects it: %s" % o.get("unroll")),
-                              "implementation": {k2: o.get(k2) for k2 in ("validate", "unroll", "nq", "nc", "depth")}})
-    return tally
+    direct.loops = langcheck.expansion_oracle(run, chk, lambda cs: cs["family"] == "loop-fragment")
 
 
 def aliasing_pairs(rnd, n):
